@@ -64,7 +64,7 @@ def struct_rows(struct):
     return flat_leaves(struct)
 
 
-def build(system, rows, momentum, struct, route="zip", spelling=0, extra=False, regular=False):
+def build(system, rows, momentum, struct, route="zip", spelling=0, extra=False, regular=False, reverse_fields=False):
     """Returns an Awkward vector array with the given structure.
 
     route: 'zip' (vector.zip of per-coordinate columns; missing leaves become option-typed *fields*),
@@ -92,6 +92,8 @@ def build(system, rows, momentum, struct, route="zip", spelling=0, extra=False, 
             cols = {n: col(i) for i, n in enumerate(names)}
         if extra:
             cols["charge"] = ak.Array(map_struct(struct, lambda r: int(r % 3 - 1))) if not _is_empty(struct) else ak.Array(numpy.zeros(0, dtype=numpy.int64))
+        if reverse_fields:
+            cols = dict(reversed(list(cols.items())))
         if regular:
             cols = {k: ak.to_regular(v, axis=1) for k, v in cols.items()}
         if route == "zip":
